@@ -320,6 +320,11 @@ def do_resume(w, i, e, offer):
         c_opts["ems"] = offer["ems"]
     if "etm" in offer:
         c_opts["etm"] = offer["etm"]
+    if offer.get("drop_ccert"):
+        # this time the client presents no certificate (and the server asks
+        # for none): only an *accepted* resumption may carry the old
+        # identity over
+        c_opts["ccert"] = False
     if e["v"] != "tls13":
         if e["orig"]["ems"] and not c_opts.get("ems", True):
             inconsistent = "ems"
@@ -422,6 +427,14 @@ def do_resume(w, i, e, offer):
         return None
     if p.both_ok:
         w.labels.append("full-fallback")
+        got = params_of(p.s)["ccert"]
+        if (got is not None) != bool(c_opts.get("ccert")):
+            return bad("fallback-inherits-identity:%s:%s" % (tag, why),
+                       "full handshake after a declined offer: the client "
+                       "presented %s certificate, the server records %s; %s"
+                       % ("a" if c_opts.get("ccert") else "no",
+                          "one" if got is not None else "none", hist),
+                       labels=w.labels)
     return None
 
 
@@ -531,6 +544,7 @@ def op_strategy():
             ["flip", "trunc", "garbage", "foreign", "random_sid"])),
         st.tuples(st.just("resume"), j, st.fixed_dictionaries(
             {}, optional={"ems": st.booleans(), "etm": st.booleans(),
+                          "drop_ccert": st.just(True),
                           "s_ciphers": st.sampled_from(
                               [["aes128"], ["aes256gcm", "aes128gcm",
                                             "chacha20-poly1305"]]),
@@ -587,13 +601,31 @@ def explicit(tier, seed):
                 yield {"ops": [full, ["tamper", 0, kind],
                                ["resume", 0, {}]]}
             yield {"ops": [full, ["evict"], ["resume", 0, {}]]}
+            # expiry must still work after the cache ring has wrapped
+            full2 = ["full", v, dict(base_c), dict(s_opts)]
+            yield {"ops": [full, ["evict"], full2, ["adv", 1001, "both"],
+                           ["resume", 1, {}]]}
+            yield {"ops": [full, ["evict"], full2, full2,
+                           ["adv", 5000, "s"], ["resume", 2, {}],
+                           ["resume", 1, {}]]}
             yield {"ops": [full, ["resume", 0, {"ems": False}]]}
             yield {"ops": [full, ["resume", 0, {"etm": False}]]}
             yield {"ops": [full, ["resume", 0, {"s_ciphers": ["aes128"]}]]}
             for v2 in ("tls10", "tls12", "tls13"):
                 if v2 != v:
                     yield {"ops": [full, ["resume", 0, {"v": v2}]]}
-        yield {"ops": [["full", v, {"ems": True, "etm": True,
-                                    "sni": "example.com", "ccert": True},
-                        {"cache": True, "tickets": True, "ems": True,
-                         "etm": True}], ["resume", 0, {}]]}
+        auth = ["full", v, {"ems": True, "etm": True,
+                            "sni": "example.com", "ccert": True},
+                {"cache": True, "tickets": True, "ems": True, "etm": True}]
+        yield {"ops": [auth, ["resume", 0, {}]]}
+        yield {"ops": [auth, ["resume", 0, {"drop_ccert": True}]]}
+        yield {"ops": [auth, ["adv", 1001, "s"],
+                       ["resume", 0, {"drop_ccert": True}]]}
+        yield {"ops": [auth, ["rotate", "replace_all"],
+                       ["resume", 0, {"drop_ccert": True}]]}
+        yield {"ops": [auth, ["resume", 0, {"drop_ccert": True,
+                                            "s_ciphers": ["aes128"]}]]}
+        for v2 in ("tls12", "tls13"):
+            if v2 != v:
+                yield {"ops": [auth, ["resume", 0, {"drop_ccert": True,
+                                                    "v": v2}]]}
